@@ -281,7 +281,10 @@ func NewInterp(prog *ssa.Program, cfg *Config) (*Interp, error) {
 		cfg.HavocMax = 64
 	}
 	if cfg.WallS == 0 {
-		cfg.WallS = 600
+		cfg.WallS = 900
+		if cfg.Tier == "thorough" {
+			cfg.WallS = 3600
+		}
 	}
 	return in, nil
 }
